@@ -12,4 +12,5 @@ PROP = dict(
     level_text="TLC checks the reload protocol (call, startup callback, new serving, old closed, shutdown callback, return; failing variants) against every interleaving with client requests for small bounds: some generation always accepts on every served address, responses come from a generation that was accepting during the request, only the new one accepts after a successful return, the old one after a failed return. Real http instances are then reloaded under concurrent client load (fresh connections, all failure kinds, requests injected inside the callback gates) and TLC validates the recorded trace, inferring the unlogged serving/closing moments.",
     level_note="Trusted: TLC; the harness's event order (sequence numbers under one mutex: request start logged before dialing, end after the full response; reload return logged after the call returns). Free-running schedules are sampled (seeded), not enumerated; the SIGUSR1 path is not driven.",
     assumptions=["clients use fresh connections with Connection: close", "requests to an address are only issued while no reload that drops the address is in progress"],
+    selftest_expects_mismatch=True,
 )
